@@ -943,6 +943,441 @@ Proof.
 Qed.
 
 (* ------------------------------------------------------------------ *)
+(* advance with a callback: [advance_at]                                *)
+
+Lemma advance_at_wf ph s o out s' b : WF s -> advance_at ph s o out = (s', b) -> WF s'.
+Proof.
+  intros W. unfold advance_at. destruct (get_ctx s o) as [c|] eqn:Hc.
+  - destruct (match out with CpDefault => cond_at ph c | _ => false end);
+      intros H; inversion H; subst; auto.
+    eapply wf_put_ctx; eauto. apply incl_refl.
+  - intros H; inversion H; subst; auto.
+Qed.
+
+Lemma advance_at_frame ph s o out s' b :
+  advance_at ph s o out = (s', b) ->
+  active s' = active s /\ (forall r, get_lock s' r = get_lock s r) /\ now s' = now s /\
+  (forall o', o' <> o -> get_ctx s' o' = get_ctx s o').
+Proof.
+  unfold advance_at. destruct (get_ctx s o) as [c|] eqn:Hc.
+  - destruct (match out with CpDefault => cond_at ph c | _ => false end);
+      intros H; inversion H; subst; auto.
+    repeat split; auto. intros o' N. autorewrite with st. destruct (Z.eqb o o') eqn:E; auto. lia.
+  - intros H; inversion H; subst; auto.
+Qed.
+
+(* ------------------------------------------------------------------ *)
+(* An operation that is being executed may have been delisted (killed from
+   inside one of its own checkpoint callbacks) and still go on acquiring
+   locks until execute_operation notices.  [WFbut x s]: [s] is well-formed
+   once [x] is counted among the live operations, i.e. every owner is active
+   OR is [x], and [x] has a context that lists what it owns.
+   [act_plus] commutes with every primitive of the controller, so the lemmas
+   about [WF] carry over. *)
+
+Definition act_plus (x : Z) (s : st) : st := set_active s (x :: active s).
+Definition WFbut (x : Z) (s : st) : Prop := WF (act_plus x s).
+
+Lemma wf_wfbut x s : WF s -> (exists c, get_ctx s x = Some c) -> WFbut x s.
+Proof.
+  intros W Hx. constructor.
+  - apply (wf_lock s W).
+  - intros r l o Hl Ho. destruct (wf_own s W r l o Hl Ho) as (A & B). split; auto. simpl. auto.
+  - intros o [<-|X]; [exact Hx | apply (wf_act s W o X)].
+Qed.
+
+Lemma wfbut_wf x s : WFbut x s -> (In x (active s) \/ owns_nothing s x) -> WF s.
+Proof.
+  intros W Hx. constructor.
+  - apply (wf_lock _ W).
+  - intros r l o Hl Ho. destruct (wf_own _ W r l o Hl Ho) as (A & B). split; auto.
+    simpl in A. destruct A as [<-|A]; auto. destruct Hx as [Hx|Hx]; auto.
+    exfalso. apply (Hx r). assert (Hl' : get_lock s r = Some l) by exact Hl.
+    rewrite owner_def, Hl'. exact Ho.
+  - intros o X. apply (wf_act _ W o). simpl. auto.
+Qed.
+
+Lemma wfbut_ctx x s : WFbut x s -> exists c, get_ctx s x = Some c.
+Proof. intros W. apply (wf_act _ W x). simpl. auto. Qed.
+
+Lemma remz_cons_ne o x A : o <> x -> remz o (x :: A) = x :: remz o A.
+Proof. intros N. unfold remz. simpl. destruct (Z.eqb x o) eqn:E; [lia|reflexivity]. Qed.
+
+Lemma remz_cons_eq x A : remz x (x :: A) = remz x A.
+Proof. unfold remz. simpl. now rewrite Z.eqb_refl. Qed.
+
+Lemma acquire_plus fl x s o r :
+  acquire fl (act_plus x s) o r = (act_plus x (fst (acquire fl s o r)), snd (acquire fl s o r)).
+Proof.
+  unfold acquire. change (get_ctx (act_plus x s) o) with (get_ctx s o).
+  destruct (get_ctx s o) as [c|]; [|reflexivity].
+  change (get_lock (act_plus x s) r) with (get_lock s r).
+  destruct (get_lock s r) as [l|]; [|reflexivity].
+  destruct (try_acquire l o (c_prio c)) as [l' res]. destruct res; reflexivity.
+Qed.
+
+Lemma release_plus fl x s o r :
+  release fl (act_plus x s) o r = (act_plus x (fst (release fl s o r)), snd (release fl s o r)).
+Proof.
+  unfold release. change (get_ctx (act_plus x s) o) with (get_ctx s o).
+  destruct (get_ctx s o) as [c|]; [|reflexivity].
+  destruct (negb (memz r (c_acq c))); [reflexivity|].
+  change (get_lock (act_plus x s) r) with (get_lock s r).
+  destruct (get_lock s r) as [l|]; [|reflexivity].
+  destruct (lock_release l o) as [l' ok]. destruct ok; [|reflexivity].
+  destruct (f_forget fl || negb (oeqb (l_owner l') o)); reflexivity.
+Qed.
+
+Lemma release_one_plus fl x s o r :
+  release_one fl (act_plus x s) o r = act_plus x (release_one fl s o r).
+Proof.
+  unfold release_one. destruct (f_reentrant fl).
+  - now rewrite release_plus.
+  - change (get_lock (act_plus x s) r) with (get_lock s r).
+    destruct (get_lock s r) as [l|].
+    + change (put_lock (act_plus x s) r (drop_reentrant (Z.to_nat (l_hold l)) o l))
+        with (act_plus x (put_lock s r (drop_reentrant (Z.to_nat (l_hold l)) o l))).
+      now rewrite release_plus.
+    + now rewrite release_plus.
+Qed.
+
+Lemma release_fold_plus fl x o (L : list Z) : forall s,
+  fold_left (fun s r => release_one fl s o r) L (act_plus x s) =
+  act_plus x (fold_left (fun s r => release_one fl s o r) L s).
+Proof.
+  induction L as [|r L IH]; intros s; simpl; auto. now rewrite release_one_plus, IH.
+Qed.
+
+Lemma release_all_plus fl x s o : release_all fl (act_plus x s) o = act_plus x (release_all fl s o).
+Proof.
+  unfold release_all. change (get_ctx (act_plus x s) o) with (get_ctx s o).
+  destruct (get_ctx s o); auto. apply release_fold_plus.
+Qed.
+
+Lemma fin_act_ne x o s3 :
+  o <> x -> set_active (act_plus x s3) (remz o (active (act_plus x s3))) =
+            act_plus x (set_active s3 (remz o (active s3))).
+Proof.
+  intros N. unfold act_plus, set_active. cbn [active resources ctxs edges now].
+  now rewrite remz_cons_ne.
+Qed.
+
+Lemma fin_act_eq x s3 :
+  set_active (act_plus x s3) (remz x (active (act_plus x s3))) = set_active s3 (remz x (active s3)).
+Proof.
+  unfold act_plus, set_active. cbn [active resources ctxs edges now]. now rewrite remz_cons_eq.
+Qed.
+
+Lemma finish_plus_ne fl x s o : o <> x -> finish fl (act_plus x s) o = act_plus x (finish fl s o).
+Proof.
+  intros N. unfold finish. rewrite release_all_plus.
+  set (s1 := release_all fl s o).
+  destruct (f_graph fl).
+  - change (get_ctx (act_plus x s1) o) with (get_ctx s1 o).
+    destruct (get_ctx s1 o) as [c|].
+    + exact (fin_act_ne x o (put_ctx s1 o (c_set_phase c G0 (now s1))) N).
+    + exact (fin_act_ne x o s1 N).
+  - set (s2 := set_edges s1 (remove_all_for_agent (edges s1) o)).
+    change (set_edges (act_plus x s1) (remove_all_for_agent (edges (act_plus x s1)) o)) with (act_plus x s2).
+    change (get_ctx (act_plus x s2) o) with (get_ctx s2 o).
+    destruct (get_ctx s2 o) as [c|].
+    + exact (fin_act_ne x o (put_ctx s2 o (c_set_phase c G0 (now s2))) N).
+    + exact (fin_act_ne x o s2 N).
+Qed.
+
+Lemma finish_plus_eq fl x s : finish fl (act_plus x s) x = finish fl s x.
+Proof.
+  unfold finish. rewrite release_all_plus.
+  set (s1 := release_all fl s x).
+  destruct (f_graph fl).
+  - change (get_ctx (act_plus x s1) x) with (get_ctx s1 x).
+    destruct (get_ctx s1 x) as [c|].
+    + exact (fin_act_eq x (put_ctx s1 x (c_set_phase c G0 (now s1)))).
+    + exact (fin_act_eq x s1).
+  - set (s2 := set_edges s1 (remove_all_for_agent (edges s1) x)).
+    change (set_edges (act_plus x s1) (remove_all_for_agent (edges (act_plus x s1)) x)) with (act_plus x s2).
+    change (get_ctx (act_plus x s2) x) with (get_ctx s2 x).
+    destruct (get_ctx s2 x) as [c|].
+    + exact (fin_act_eq x (put_ctx s2 x (c_set_phase c G0 (now s2)))).
+    + exact (fin_act_eq x s2).
+Qed.
+
+Lemma finish_plus_lock x s o r :
+  get_lock (finish current (act_plus x s) o) r = get_lock (finish current s o) r.
+Proof.
+  destruct (Z.eq_dec o x) as [->|N].
+  - now rewrite finish_plus_eq.
+  - now rewrite finish_plus_ne.
+Qed.
+
+Lemma upd_ctx_plus x s o f : upd_ctx (act_plus x s) o f = act_plus x (upd_ctx s o f).
+Proof.
+  unfold upd_ctx. change (get_ctx (act_plus x s) o) with (get_ctx s o). destruct (get_ctx s o); reflexivity.
+Qed.
+
+Lemma advance_at_plus ph x s o out :
+  advance_at ph (act_plus x s) o out =
+  (act_plus x (fst (advance_at ph s o out)), snd (advance_at ph s o out)).
+Proof.
+  unfold advance_at. change (get_ctx (act_plus x s) o) with (get_ctx s o).
+  destruct (get_ctx s o) as [c|]; [|reflexivity].
+  destruct (match out with CpDefault => cond_at ph c | _ => false end); reflexivity.
+Qed.
+
+(* the primitives preserve [WFbut x] *)
+Lemma acquire_wfbut x s o r s' res :
+  WFbut x s -> In o (active s) \/ o = x -> acquire current s o r = (s', res) -> WFbut x s'.
+Proof.
+  intros W Ha H. unfold WFbut in *.
+  pose proof (acquire_plus current x s o r) as E. rewrite H in E. simpl in E.
+  eapply acquire_wf; [exact W| |exact E]. simpl. destruct Ha; auto.
+Qed.
+
+Lemma release_wfbut x s o r s' b : WFbut x s -> release current s o r = (s', b) -> WFbut x s'.
+Proof.
+  intros W H. unfold WFbut in *.
+  pose proof (release_plus current x s o r) as E. rewrite H in E. simpl in E.
+  eapply release_wf; eauto.
+Qed.
+
+Lemma finish_wfbut x s o : WFbut x s -> WFbut x (finish current s o).
+Proof.
+  intros W. unfold WFbut in *. destruct (Z.eq_dec o x) as [->|N].
+  - destruct (wfbut_ctx x s W) as (c & Hc).
+    destruct (finish_spec _ x W) as (W' & _ & _ & _ & _ & _ & _ & _ & S).
+    rewrite finish_plus_eq in *. apply wf_wfbut; auto.
+    destruct (S c Hc) as (y & Hy & _). eauto.
+  - rewrite <- finish_plus_ne by auto. apply finish_spec; auto.
+Qed.
+
+(* ending [x] itself: everything it still holds is released, the state is well-formed again *)
+Lemma finish_x_wf x s : WFbut x s -> WF (finish current s x) /\ owns_nothing (finish current s x) x.
+Proof.
+  intros W. destruct (finish_spec _ x W) as (W' & N & _). rewrite finish_plus_eq in *. auto.
+Qed.
+
+Lemma finish_lock_frame_but x s o r :
+  WFbut x s -> owner s r <> Some o -> get_lock (finish current s o) r = get_lock s r.
+Proof.
+  intros W N. destruct (finish_spec _ o W) as (_ & _ & _ & _ & L & _).
+  rewrite <- finish_plus_lock with (x := x). now apply L.
+Qed.
+
+Lemma start_op_wfbut x s o p ex : WFbut x s -> get_ctx s o = None -> WFbut x (start_op s o p ex).
+Proof.
+  intros W F. unfold WFbut in *.
+  assert (E : start_op (act_plus x s) o p ex = act_plus x (start_op s o p ex)).
+  { pose proof (wf_fresh_not_active _ o W F) as Na. simpl in Na.
+    unfold start_op.
+    assert (M1 : memz o (active (act_plus x s)) = false) by (apply memz_false; simpl; tauto).
+    assert (M2 : memz o (active s) = false) by (apply memz_false; tauto).
+    rewrite M1, M2. reflexivity. }
+  rewrite <- E. apply start_op_wf; auto.
+Qed.
+
+(* execute_operation may re-use the id of an operation that has ended *)
+Lemma start_op_wf_ended s o p ex : WF s -> ~ In o (active s) -> WF (start_op s o p ex).
+Proof.
+  intros W Na. unfold start_op.
+  assert (M : memz o (active s) = false) by now apply memz_false.
+  rewrite M. constructor.
+  - intros r l. autorewrite with st. apply (wf_lock s W).
+  - intros r l o0. autorewrite with st. intros Hl Ho.
+    destruct (wf_own s W r l o0 Hl Ho) as (A & c & Hc & Hin).
+    split. { apply in_or_app. auto. }
+    destruct (Z.eqb o o0) eqn:E; eauto. assert (o = o0) by lia. subst. tauto.
+  - intros o0. autorewrite with st. intros X. apply in_app_or in X as [X|[<-|[]]].
+    + destruct (Z.eqb o o0); eauto. apply (wf_act s W o0 X).
+    + rewrite Z.eqb_refl. eauto.
+Qed.
+
+Lemma upd_ctx_wfbut x s o f :
+  WFbut x s -> (forall c, c_acq (f c) = c_acq c) -> WFbut x (upd_ctx s o f).
+Proof. intros W Hf. unfold WFbut. rewrite <- upd_ctx_plus. now apply upd_ctx_wf. Qed.
+
+Lemma advance_at_wfbut ph x s o out : WFbut x s -> WFbut x (fst (advance_at ph s o out)).
+Proof.
+  intros W. unfold WFbut in *. pose proof (advance_at_plus ph x s o out) as E.
+  eapply advance_at_wf; eauto.
+Qed.
+
+Lemma abort_if_active_wfbut x s o : WFbut x s -> WFbut x (abort_if_active current s o).
+Proof. intros W. unfold abort_if_active. destruct (is_active s o); auto. now apply finish_wfbut. Qed.
+
+Lemma abort_fold_wfbut x (L : list Z) : forall s,
+  WFbut x s -> WFbut x (fold_left (abort_if_active current) L s).
+Proof. induction L as [|o L IH]; intros s W; simpl; auto. apply IH. now apply abort_if_active_wfbut. Qed.
+
+Lemma fstep_wfbut x w s a : WFbut x s -> WFbut x (fst (fstep current w s a)).
+Proof.
+  intros W. destruct a; cbn [fstep].
+  - destruct (has_ctx s o) eqn:E; simpl; auto. apply start_op_wfbut; auto. now apply has_ctx_false.
+  - destruct (is_active s o) eqn:E; simpl; auto.
+    destruct (acquire current s o r) as [s' res] eqn:Ha.
+    assert (WFbut x s') by (apply (acquire_wfbut x s o r s' res W); [left; now apply is_active_In | exact Ha]).
+    destruct res; auto.
+  - destruct (is_active s o) eqn:E; simpl; auto.
+    destruct (release current s o r) as [s' b] eqn:Hr. simpl. eapply release_wfbut; eauto.
+  - destruct (is_active s o); simpl; auto. now apply finish_wfbut.
+  - destruct (is_active s o); simpl; auto. now apply finish_wfbut.
+  - destruct (is_active s o); simpl; auto. now apply finish_wfbut.
+  - unfold wd_execute. rewrite fold_abort_events. simpl. now apply abort_fold_wfbut.
+  - unfold shutdown. now apply abort_fold_wfbut.
+  - exact (wf_set_now (act_plus x s) _ W).
+Qed.
+
+Lemma run_work_wfbut x w acts : forall s, WFbut x s -> WFbut x (fst (run_work current w s acts)).
+Proof.
+  induction acts as [|a acts IH]; intros s W; simpl; auto.
+  destruct a as [|f].
+  - specialize (IH s W). destruct (run_work current w s acts). auto.
+  - pose proof (fstep_wfbut x w s f W) as W1. destruct (fstep current w s f) as [s1 ret]. simpl in W1.
+    specialize (IH s1 W1). destruct (run_work current w s1 acts). auto.
+Qed.
+
+(* ------------------------------------------------------------------ *)
+(* Ending OTHER operations never touches a lock owned by [o]; and once [o] is
+   delisted it stays delisted as long as nobody starts operations.  No
+   well-formedness needed, any flags: used for "work_fn is only invoked while
+   the operation holds everything it asked for". *)
+
+Lemma release_active_g fl s o r : active (fst (release fl s o r)) = active s.
+Proof.
+  unfold release. destruct (get_ctx s o) as [c|]; [|reflexivity].
+  destruct (negb (memz r (c_acq c))); [reflexivity|].
+  destruct (get_lock s r) as [l|]; [|reflexivity].
+  destruct (lock_release l o) as [l' ok]. destruct ok; [|reflexivity].
+  destruct (f_forget fl || negb (oeqb (l_owner l') o)); reflexivity.
+Qed.
+
+Lemma release_one_active_g fl s o r : active (release_one fl s o r) = active s.
+Proof.
+  unfold release_one. rewrite release_active_g.
+  destruct (f_reentrant fl); auto. destruct (get_lock s r); reflexivity.
+Qed.
+
+Lemma release_all_active_g fl s o : active (release_all fl s o) = active s.
+Proof.
+  unfold release_all. destruct (get_ctx s o) as [c|]; auto.
+  generalize (c_acq c). intros L. revert s. induction L as [|r L IH]; intros s; simpl; auto.
+  now rewrite IH, release_one_active_g.
+Qed.
+
+Lemma finish_active_g fl s o : active (finish fl s o) = remz o (active s).
+Proof.
+  unfold finish. pose proof (release_all_active_g fl s o) as A.
+  set (s1 := release_all fl s o) in *.
+  destruct (f_graph fl).
+  - destruct (get_ctx s1 o); simpl; now rewrite A.
+  - change (get_ctx (set_edges s1 (remove_all_for_agent (edges s1) o)) o) with (get_ctx s1 o).
+    destruct (get_ctx s1 o); simpl; now rewrite A.
+Qed.
+
+Lemma release_owner_keep fl s o' r0 o r :
+  o' <> o -> owner s r = Some o -> owner (fst (release fl s o' r0)) r = Some o.
+Proof.
+  intros N H. unfold release. destruct (get_ctx s o') as [c|]; [|exact H].
+  destruct (negb (memz r0 (c_acq c))); [exact H|].
+  destruct (get_lock s r0) as [l|] eqn:Hl; [|exact H].
+  destruct (lock_release l o') as [l' ok] eqn:Hr. destruct ok; [|exact H].
+  assert (X : owner (put_lock s r0 l') r = Some o).
+  { rewrite owner_def. autorewrite with st. destruct (Z.eqb r0 r) eqn:E.
+    - exfalso. assert (r0 = r) by lia. subst r0. rewrite owner_def, Hl in H.
+      apply lock_release_cases in Hr as [(X & _)|[(_ & Ho & _)|(_ & Ho & _)]]; congruence.
+    - rewrite <- owner_def. exact H. }
+  destruct (f_forget fl || negb (oeqb (l_owner l') o')); exact X.
+Qed.
+
+Lemma release_one_owner_keep fl s o' r0 o r :
+  o' <> o -> owner s r = Some o -> owner (release_one fl s o' r0) r = Some o.
+Proof.
+  intros N H. unfold release_one. apply release_owner_keep; auto.
+  destruct (f_reentrant fl); auto.
+  destruct (get_lock s r0) as [l|] eqn:Hl; auto.
+  rewrite owner_def. autorewrite with st. destruct (Z.eqb r0 r) eqn:E.
+  - assert (r0 = r) by lia. subst r0. rewrite owner_def, Hl in H.
+    rewrite drop_reentrant_other; auto. congruence.
+  - rewrite <- owner_def. exact H.
+Qed.
+
+Lemma release_all_owner_keep fl s o' o r :
+  o' <> o -> owner s r = Some o -> owner (release_all fl s o') r = Some o.
+Proof.
+  intros N. unfold release_all. destruct (get_ctx s o') as [c|]; auto.
+  generalize (c_acq c). intros L. revert s. induction L as [|r0 L IH]; intros s H; simpl; auto.
+  apply IH. now apply release_one_owner_keep.
+Qed.
+
+Lemma finish_owner_keep fl s o' o r :
+  o' <> o -> owner s r = Some o -> owner (finish fl s o') r = Some o.
+Proof.
+  intros N H. pose proof (release_all_owner_keep fl s o' o r N H) as X.
+  unfold finish. set (s1 := release_all fl s o') in *.
+  destruct (f_graph fl).
+  - destruct (get_ctx s1 o'); exact X.
+  - change (get_ctx (set_edges s1 (remove_all_for_agent (edges s1) o')) o') with (get_ctx s1 o').
+    destruct (get_ctx s1 o'); exact X.
+Qed.
+
+Section Keeps.
+Variables (fl : flags) (o : Z).
+
+Definition keeps (s s' : st) : Prop :=
+  incl (active s') (active s) /\
+  (In o (active s') -> forall r, owner s r = Some o -> owner s' r = Some o).
+
+Lemma keeps_refl s : keeps s s.
+Proof. split; [apply incl_refl|auto]. Qed.
+
+Lemma keeps_trans s1 s2 s3 : keeps s1 s2 -> keeps s2 s3 -> keeps s1 s3.
+Proof.
+  intros (I1 & K1) (I2 & K2). split. { eapply incl_tran; eauto. }
+  intros A r H. apply K2; auto.
+Qed.
+
+Lemma abort_if_active_keeps s o' : keeps s (abort_if_active fl s o').
+Proof.
+  unfold abort_if_active. destruct (is_active s o'); [|apply keeps_refl].
+  split.
+  - rewrite finish_active_g. intros y Y. now apply remz_In in Y.
+  - rewrite finish_active_g. intros A r H. apply remz_In in A as [_ A].
+    apply finish_owner_keep; auto.
+Qed.
+
+Lemma abort_fold_keeps (L : list Z) : forall s, keeps s (fold_left (abort_if_active fl) L s).
+Proof.
+  induction L as [|o' L IH]; intros s; simpl; [apply keeps_refl|].
+  eapply keeps_trans; [apply abort_if_active_keeps | apply IH].
+Qed.
+
+Lemma cact_keeps w s (a : cact) : keeps s (fst (run_work fl w s [cact_wact a])).
+Proof.
+  destruct a; simpl.
+  - apply keeps_refl.
+  - destruct (is_active s o0) eqn:E; simpl.
+    + pose proof (abort_if_active_keeps s o0) as K. unfold abort_if_active in K. now rewrite E in K.
+    + apply keeps_refl.
+  - unfold wd_execute. rewrite fold_abort_events. simpl. apply abort_fold_keeps.
+  - unfold shutdown. apply abort_fold_keeps.
+  - split; [apply incl_refl|auto].
+Qed.
+
+Lemma run_work_cons fl' w s a acts :
+  fst (run_work fl' w s (a :: acts)) = fst (run_work fl' w (fst (run_work fl' w s [a])) acts).
+Proof.
+  destruct a as [|f]; cbn [run_work].
+  - cbn [fst]. destruct (run_work fl' w s acts). reflexivity.
+  - destruct (fstep fl' w s f) as [s1 ret]. cbn [fst]. destruct (run_work fl' w s1 acts). reflexivity.
+Qed.
+
+Lemma callback_keeps w (acts : list cact) : forall s, keeps s (fst (run_work fl w s (map cact_wact acts))).
+Proof.
+  induction acts as [|a acts IH]; intros s; [apply keeps_refl|].
+  cbn [map]. rewrite run_work_cons. eapply keeps_trans; [apply cact_keeps | apply IH].
+Qed.
+End Keeps.
+
+(* ------------------------------------------------------------------ *)
 (* the acquisition loop of execute_operation                            *)
 
 Lemma acquire_keeps_own fl s o r s' res r0 :
@@ -1052,6 +1487,16 @@ Proof.
     + inversion H; subst. apply acquire_shape in Ha as [-> _]. auto.
 Qed.
 
+Lemma acquire_all_wfbut o reqs : forall s k s' out,
+  WFbut o s -> acquire_all current s o k reqs = (s', out) -> WFbut o s'.
+Proof.
+  induction reqs as [|r reqs IH]; intros s k s' out W H; simpl in H.
+  - inversion H; subst. auto.
+  - destruct (acquire current s o r) as [s1 res] eqn:Hq.
+    pose proof (acquire_wfbut o _ _ _ _ _ W (or_intror eq_refl) Hq) as W1.
+    destruct res as [lr| |]; [destruct lr|..]; try (inversion H; subst; auto; fail); eapply IH; eauto.
+Qed.
+
 (* ------------------------------------------------------------------ *)
 (* execute_operation: every path ends in complete/abort of a good state *)
 
@@ -1059,30 +1504,35 @@ Definition ends (o : Z) (P : st -> Prop) (x : st * result) : Prop :=
   exists sX, P sX /\ fst x = finish current sX o.
 
 Section Stages.
-Variables (w : wcfg) (o : Z) (sc : script) (P : st -> Prop).
+Variables (chk : bool) (w : wcfg) (o : Z) (sc : script) (P : st -> Prop).
 Hypothesis P_upd : forall s f, (forall c, c_acq (f c) = c_acq c) -> P s -> P (upd_ctx s o f).
-Hypothesis P_adv : forall s out, P s -> P (fst (advance s o out)).
+Hypothesis P_adv : forall ph s out, P s -> P (fst (advance_at ph s o out)).
 Hypothesis P_work : forall s, P s -> P (fst (run_work current w s (sc_work sc))).
+Hypothesis P_cb : forall k s, P s -> P (fst (run_work current w s (cb_of sc k))).
 
 Lemma failed_ends s log : P s -> ends o P (failed current s o log).
 Proof. intros H. exists s. split; auto. Qed.
 
-Lemma exec_validate_ends s log : P s -> ends o P (exec_validate current s o sc log).
+Lemma exec_validate_ends s log : P s -> ends o P (exec_validate current w s o sc log).
 Proof.
   intros H. unfold exec_validate.
   assert (H8 : P (upd_ctx s o c_set_valid)) by (apply P_upd; auto).
-  pose proof (P_adv _ (cp_of sc 3) H8) as H9.
-  destruct (advance (upd_ctx s o c_set_valid) o (cp_of sc 3)) as [s9 b3]. simpl in H9.
+  pose proof (P_cb 3 _ H8) as H8'.
+  destruct (run_work current w (upd_ctx s o c_set_valid) (cb_of sc 3)) as [s8' l3]. simpl in H8'.
+  pose proof (P_adv (phase_of (upd_ctx s o c_set_valid) o) _ (cp_of sc 3) H8') as H9.
+  destruct (advance_at (phase_of (upd_ctx s o c_set_valid) o) s8' o (cp_of sc 3)) as [s9 b3]. simpl in H9.
   destruct (sc_validate sc); try (apply failed_ends; assumption);
     (destruct b3; simpl; [exists s9; split; auto | apply failed_ends; assumption]).
 Qed.
 
-Lemma exec_after_work_ends s log : P s -> ends o P (exec_after_work current s o sc log).
+Lemma exec_after_work_ends s log : P s -> ends o P (exec_after_work current w s o sc log).
 Proof.
   intros H. unfold exec_after_work.
   assert (H6 : P (upd_ctx s o c_set_exec)) by (apply P_upd; auto).
-  pose proof (P_adv _ (cp_of sc 2) H6) as H7.
-  destruct (advance (upd_ctx s o c_set_exec) o (cp_of sc 2)) as [s7 b2]. simpl in H7.
+  pose proof (P_cb 2 _ H6) as H6'.
+  destruct (run_work current w (upd_ctx s o c_set_exec) (cb_of sc 2)) as [s6' l2]. simpl in H6'.
+  pose proof (P_adv (phase_of (upd_ctx s o c_set_exec) o) _ (cp_of sc 2) H6') as H7.
+  destruct (advance_at (phase_of (upd_ctx s o c_set_exec) o) s6' o (cp_of sc 2)) as [s7 b2]. simpl in H7.
   destruct b2; simpl; [apply exec_validate_ends | apply failed_ends]; assumption.
 Qed.
 
@@ -1094,46 +1544,51 @@ Proof.
   destruct (sc_work_raises sc); [apply failed_ends | apply exec_after_work_ends]; assumption.
 Qed.
 
-Lemma exec_acquired_ends s log : P s -> ends o P (exec_acquired current w s o sc log).
+Lemma exec_acquired_ends s log : P s -> ends o P (exec_acquired chk current w s o sc log).
 Proof.
   intros H. unfold exec_acquired.
   assert (H3 : P (upd_ctx s o c_set_racq)) by (apply P_upd; auto).
-  pose proof (P_adv _ (cp_of sc 1) H3) as H4.
-  destruct (advance (upd_ctx s o c_set_racq) o (cp_of sc 1)) as [s4 b1]. simpl in H4.
-  destruct b1; simpl; [apply exec_work_ends | apply failed_ends]; assumption.
+  pose proof (P_cb 1 _ H3) as H3'.
+  destruct (run_work current w (upd_ctx s o c_set_racq) (cb_of sc 1)) as [s3' l1]. simpl in H3'.
+  pose proof (P_adv (phase_of (upd_ctx s o c_set_racq) o) _ (cp_of sc 1) H3') as H4.
+  destruct (advance_at (phase_of (upd_ctx s o c_set_racq) o) s3' o (cp_of sc 1)) as [s4 b1]. simpl in H4.
+  destruct b1; simpl; [|apply failed_ends; assumption].
+  destruct (chk && negb (is_active s4 o)); [apply failed_ends | apply exec_work_ends]; assumption.
 Qed.
 End Stages.
 
-Lemma exec_begin_spec s o p sc s1 b0 :
-  WF s -> get_ctx s o = None -> exec_begin s o p sc = (s1, b0) ->
-  WF s1 /\ In o (active s1) /\ (forall r, get_lock s1 r = get_lock s r) /\ now s1 = now s /\
-  (forall o', o' <> o -> get_ctx s1 o' = get_ctx s o').
+Lemma start_op_ctx s o p ex : exists c, get_ctx (start_op s o p ex) o = Some c.
+Proof. unfold start_op. autorewrite with st. rewrite Z.eqb_refl. eauto. Qed.
+
+(* the id may be one that was used before, by an operation that has ended *)
+Lemma exec_begin_spec w s o p sc s1 b0 l0 :
+  WF s -> ~ In o (active s) -> exec_begin current w s o p sc = (s1, b0, l0) -> WFbut o s1.
 Proof.
-  intros W F H. unfold exec_begin in H.
-  pose proof (start_op_wf s o p false W F) as W0.
-  pose proof (advance_wf _ _ _ _ _ W0 H) as W1.
-  destruct (advance_frame _ _ _ _ _ H) as (A & L & T & C).
-  split; auto. split. { rewrite A. apply start_op_active. }
-  split. { intros r. rewrite L. reflexivity. }
-  split. { rewrite T. reflexivity. }
-  intros o' N. rewrite C by auto. unfold start_op. autorewrite with st.
-  destruct (Z.eqb o o') eqn:E; auto. lia.
+  intros W Na H. unfold exec_begin in H.
+  assert (W0 : WFbut o (start_op s o p false)).
+  { apply wf_wfbut; [now apply start_op_wf_ended | apply start_op_ctx]. }
+  pose proof (run_work_wfbut o w (cb_of sc 0) _ W0) as W0'.
+  destruct (run_work current w (start_op s o p false) (cb_of sc 0)) as [s0' l]. simpl in W0'.
+  pose proof (advance_at_wfbut G0 o s0' o (cp_of sc 0) W0') as W1.
+  destruct (advance_at G0 s0' o (cp_of sc 0)) as [sa b]. simpl in W1. inversion H; subst. exact W1.
 Qed.
 
-Lemma exec_op_ends_wf w s o p reqs sc :
-  WF s -> get_ctx s o = None -> ends o WF (exec_op current w s o p reqs sc).
+Lemma exec_op_ends_wfbut w s o p reqs sc :
+  WF s -> ~ In o (active s) -> ends o (WFbut o) (exec_op current w s o p reqs sc).
 Proof.
-  intros W F. unfold exec_op.
-  destruct (exec_begin s o p sc) as [s1 b0] eqn:Hb.
-  destruct (exec_begin_spec _ _ _ _ _ _ W F Hb) as (W1 & A1 & _).
+  intros W Na. unfold exec_op, exec_op_gen.
+  destruct (exec_begin current w s o p sc) as [[s1 b0] l0] eqn:Hb.
+  pose proof (exec_begin_spec _ _ _ _ _ _ _ _ W Na Hb) as W1.
   destruct (acquire_all current s1 o 0 reqs) as [s2 out] eqn:Ha.
-  destruct (acquire_all_wf _ _ _ _ _ _ W1 A1 Ha) as (W2 & _).
-  assert (Hup : forall s f, (forall c, c_acq (f c) = c_acq c) -> WF s -> WF (upd_ctx s o f))
-    by (intros; now apply upd_ctx_wf).
-  assert (Hadv : forall s out, WF s -> WF (fst (advance s o out))).
-  { intros s0 out0 W0. destruct (advance s0 o out0) as [s' b] eqn:E. simpl. eapply advance_wf; eauto. }
-  assert (Hwork : forall s, WF s -> WF (fst (run_work current w s (sc_work sc))))
-    by (intros; now apply run_work_wf).
+  pose proof (acquire_all_wfbut _ _ _ _ _ _ W1 Ha) as W2.
+  assert (Hup : forall s f, (forall c, c_acq (f c) = c_acq c) -> WFbut o s -> WFbut o (upd_ctx s o f))
+    by (intros; now apply upd_ctx_wfbut).
+  assert (Hadv : forall ph s out, WFbut o s -> WFbut o (fst (advance_at ph s o out)))
+    by (intros; now apply advance_at_wfbut).
+  assert (Hwork : forall s, WFbut o s -> WFbut o (fst (run_work current w s (sc_work sc))))
+    by (intros; now apply run_work_wfbut).
+  assert (Hcb : forall k s, WFbut o s -> WFbut o (fst (run_work current w s (cb_of sc k))))
+    by (intros; now apply run_work_wfbut).
   destruct out.
   - apply exec_acquired_ends; auto.
   - apply failed_ends; auto.
@@ -1141,60 +1596,71 @@ Proof.
 Qed.
 
 Lemma no_leak_proof w s o p reqs sc :
-  WF s -> get_ctx s o = None ->
+  WF s -> ~ In o (active s) ->
   let s' := fst (exec_op current w s o p reqs sc) in
   owns_nothing s' o /\ ~ In o (active s') /\ WF s'.
 Proof.
-  intros W F. destruct (exec_op_ends_wf w s o p reqs sc W F) as (sX & WX & ->).
-  destruct (finish_spec sX o WX) as (W' & N & _).
+  intros W Na. destruct (exec_op_ends_wfbut w s o p reqs sc W Na) as (sX & WX & ->).
+  destruct (finish_x_wf o sX WX) as (W' & N).
   split; auto. split; auto. apply finish_not_active.
 Qed.
 
 (* resources the operation never obtained keep owner / priority / hold_count *)
-Definition obtained_by (s : st) (o p : Z) (reqs : list Z) (sc : script) : list Z :=
-  obtained current (fst (exec_begin s o p sc)) o reqs.
+Definition no_calls (sc : script) : Prop :=
+  probes_only (sc_work sc) /\ forall k, probes_only (cb_of sc k).
+
+Definition obtained_by (w : wcfg) (s : st) (o p : Z) (reqs : list Z) (sc : script) : list Z :=
+  obtained current (fst (fst (exec_begin current w s o p sc))) o reqs.
 
 Lemma unobtained_untouched_proof w s o p reqs sc r :
-  WF s -> get_ctx s o = None -> probes_only (sc_work sc) ->
-  ~ In r (obtained_by s o p reqs sc) ->
+  WF s -> ~ In o (active s) -> no_calls sc ->
+  ~ In r (obtained_by w s o p reqs sc) ->
   lock_core (fst (exec_op current w s o p reqs sc)) r = lock_core s r.
 Proof.
-  intros W F PO N. unfold obtained_by in N. unfold exec_op.
-  destruct (exec_begin s o p sc) as [s1 b0] eqn:Hb. simpl in N.
-  destruct (exec_begin_spec _ _ _ _ _ _ W F Hb) as (W1 & A1 & L1 & _).
+  intros W Na (PO & PC) N. unfold obtained_by in N. unfold exec_op, exec_op_gen.
+  destruct (exec_begin current w s o p sc) as [[s1 b0] l0] eqn:Hb. simpl in N.
+  pose proof (exec_begin_spec _ _ _ _ _ _ _ _ W Na Hb) as W1.
+  assert (L1 : forall r, get_lock s1 r = get_lock s r).
+  { unfold exec_begin in Hb. pose proof (run_work_probes current w (cb_of sc 0) (start_op s o p false) (PC 0%nat)) as E.
+    destruct (run_work current w (start_op s o p false) (cb_of sc 0)) as [s0' l]. simpl in E. subst s0'.
+    destruct (advance_at G0 (start_op s o p false) o (cp_of sc 0)) as [sa b] eqn:Hv.
+    destruct (advance_at_frame _ _ _ _ _ _ Hv) as (_ & L & _). inversion Hb; subst.
+    intros r0. rewrite L. reflexivity. }
   destruct (acquire_all current s1 o 0 reqs) as [s2 out] eqn:Ha.
-  destruct (acquire_all_wf _ _ _ _ _ _ W1 A1 Ha) as (W2 & _).
+  pose proof (acquire_all_wfbut _ _ _ _ _ _ W1 Ha) as W2.
   destruct (acquire_all_untouched _ _ _ _ _ _ _ r Ha N) as (C2 & O2).
-  set (P := fun sx => WF sx /\ lock_core sx r = lock_core s r /\ owner sx r <> Some o).
+  set (P := fun sx => WFbut o sx /\ lock_core sx r = lock_core s r /\ owner sx r <> Some o).
   assert (P2 : P s2).
   { split; auto. split.
     - rewrite C2. apply lock_core_eq, L1.
     - intros X. apply O2 in X. rewrite owner_def, L1 in X.
-      apply (wf_fresh_owns_nothing s o W F r). rewrite owner_def. exact X. }
+      apply (wf_inactive_owns_nothing s o W Na r). rewrite owner_def. exact X. }
   assert (Hup : forall s f, (forall c, c_acq (f c) = c_acq c) -> P s -> P (upd_ctx s o f)).
   { intros s0 f Hf (Wa & Ca & Oa). destruct (upd_ctx_frame s0 o f) as (_ & L & _).
-    split. { now apply upd_ctx_wf. }
+    split. { now apply upd_ctx_wfbut. }
     split. { rewrite <- Ca. apply lock_core_eq, L. }
     now rewrite owner_def, L. }
-  assert (Hadv : forall s out, P s -> P (fst (advance s o out))).
-  { intros s0 out0 (Wa & Ca & Oa). destruct (advance s0 o out0) as [s' b] eqn:E. simpl.
-    destruct (advance_frame _ _ _ _ _ E) as (_ & L & _).
-    split. { eapply advance_wf; eauto. }
+  assert (Hadv : forall ph s out, P s -> P (fst (advance_at ph s o out))).
+  { intros ph s0 out0 (Wa & Ca & Oa). pose proof (advance_at_wfbut ph o s0 o out0 Wa) as Wb.
+    destruct (advance_at ph s0 o out0) as [s' b] eqn:E. simpl in *.
+    destruct (advance_at_frame _ _ _ _ _ _ E) as (_ & L & _).
+    split. { exact Wb. }
     split. { rewrite <- Ca. apply lock_core_eq, L. }
     now rewrite owner_def, L. }
   assert (Hwork : forall s, P s -> P (fst (run_work current w s (sc_work sc)))).
   { intros s0 H0. now rewrite run_work_probes. }
+  assert (Hcb : forall k s, P s -> P (fst (run_work current w s (cb_of sc k)))).
+  { intros k s0 H0. rewrite run_work_probes; auto. }
   assert (E : ends o P (match out with
-                        | AllAcquired => exec_acquired current w s2 o sc [EvCp 0 b0]
-                        | _ => failed current s2 o [EvCp 0 b0] end)).
+                        | AllAcquired => exec_acquired true current w s2 o sc (l0 ++ [EvCp 0 b0])
+                        | _ => failed current s2 o (l0 ++ [EvCp 0 b0]) end)).
   { destruct out; [apply exec_acquired_ends | apply failed_ends | apply failed_ends]; auto. }
   destruct E as (sX & (WX & CX & OX) & ->).
-  destruct (finish_spec sX o WX) as (_ & _ & _ & _ & L & _).
-  rewrite <- CX. apply lock_core_eq, L, OX.
+  rewrite <- CX. apply lock_core_eq. eapply finish_lock_frame_but; eauto.
 Qed.
 
 Lemma unrequested_untouched_proof w s o p reqs sc r :
-  WF s -> get_ctx s o = None -> probes_only (sc_work sc) -> ~ In r reqs ->
+  WF s -> ~ In o (active s) -> no_calls sc -> ~ In r reqs ->
   lock_core (fst (exec_op current w s o p reqs sc)) r = lock_core s r.
 Proof.
   intros W F PO N. apply unobtained_untouched_proof; auto.
@@ -1220,6 +1686,13 @@ Proof.
     destruct (run_work fl w s1 acts). simpl. constructor; simpl; auto.
 Qed.
 
+Lemma exec_begin_log_inner fl w s o p sc : Forall is_inner (snd (exec_begin fl w s o p sc)).
+Proof.
+  unfold exec_begin. pose proof (run_work_log_inner fl w (cb_of sc 0) (start_op s o p false)) as X.
+  destruct (run_work fl w (start_op s o p false) (cb_of sc 0)) as [s0' l].
+  destruct (advance_at G0 s0' o (cp_of sc 0)). exact X.
+Qed.
+
 Lemma inner_filter_work wl : Forall is_inner wl -> filter is_work wl = [].
 Proof.
   induction 1 as [|e l He _ IH]; simpl; auto. destruct e; simpl in *; tauto.
@@ -1229,27 +1702,29 @@ Lemma inner_not_in wl e : Forall is_inner wl -> In e wl -> is_inner e.
 Proof. intros H X. rewrite Forall_forall in H. auto. Qed.
 
 Ltac exec_unfold :=
-  unfold exec_op, exec_acquired, exec_work, exec_after_work, exec_validate, failed.
+  unfold exec_op, exec_op_gen, exec_acquired, exec_work, exec_after_work, exec_validate, failed.
 
 (* one case per exit path of execute_operation *)
 Ltac exec_paths :=
   repeat match goal with
-  | |- context [exec_begin ?s ?o ?p ?sc] =>
-      let s1 := fresh "s1" in let b0 := fresh "b0" in
-      destruct (exec_begin s o p sc) as [s1 b0] eqn:?
+  | |- context [exec_begin ?fl ?w ?s ?o ?p ?sc] =>
+      let s1 := fresh "s1" in let b0 := fresh "b0" in let l0 := fresh "l0" in
+      pose proof (exec_begin_log_inner fl w s o p sc);
+      destruct (exec_begin fl w s o p sc) as [[s1 b0] l0] eqn:?
   | |- context [acquire_all ?fl ?s ?o ?k ?reqs] =>
       let s2 := fresh "s2" in let out := fresh "out" in
       destruct (acquire_all fl s o k reqs) as [s2 out] eqn:?; destruct out
-  | |- context [advance ?s ?o ?c] =>
-      let s4 := fresh "sa" in let b := fresh "b" in
-      destruct (advance s o c) as [s4 b] eqn:?; destruct b
   | |- context [run_work ?fl ?w ?s ?a] =>
       let s5 := fresh "s5" in let wl := fresh "wl" in
       pose proof (run_work_log_inner fl w a s);
       destruct (run_work fl w s a) as [s5 wl] eqn:?
+  | |- context [advance_at ?ph ?s ?o ?c] =>
+      let s4 := fresh "sa" in let b := fresh "b" in
+      destruct (advance_at ph s o c) as [s4 b] eqn:?; destruct b
+  | |- context [is_active ?s ?o] => destruct (is_active s o) eqn:?
   | |- context [sc_work_raises ?sc] => destruct (sc_work_raises sc) eqn:?
   | |- context [match sc_validate ?sc with _ => _ end] => destruct (sc_validate sc) eqn:?
-  end; cbn [negb fst snd r_log r_success r_phase].
+  end; cbn [negb andb fst snd r_log r_success r_phase].
 
 Lemma acquire_all_active fl o reqs : forall s k s' out,
   acquire_all fl s o k reqs = (s', out) -> active s' = active s.
@@ -1262,10 +1737,25 @@ Proof.
     destruct lr; try (inversion H; subst; auto; fail); rewrite (IH _ _ _ _ H); auto.
 Qed.
 
-Lemma exec_begin_active s o p sc s1 b0 : exec_begin s o p sc = (s1, b0) -> In o (active s1).
+(* the situation in which work_fn is invoked: everything was acquired, then the
+   G1 checkpoint callback ran (it may have ended any operation), the checkpoint
+   passed and the operation is still listed as active *)
+Lemma work_entry fl w o reqs sc s1 s2 s3' l1 sw :
+  acquire_all fl s1 o 0 reqs = (s2, AllAcquired) ->
+  run_work fl w (upd_ctx s2 o c_set_racq) (cb_of sc 1) = (s3', l1) ->
+  advance_at (phase_of (upd_ctx s2 o c_set_racq) o) s3' o (cp_of sc 1) = (sw, true) ->
+  is_active sw o = true ->
+  In o (active sw) /\ forall r, In r reqs -> owner sw r = Some o.
 Proof.
-  unfold exec_begin. intros H. destruct (advance_frame _ _ _ _ _ H) as (A & _).
-  rewrite A. apply start_op_active.
+  intros Ha Hw Hv Hact. apply is_active_In in Hact. split; auto.
+  destruct (acquire_all_owns _ _ _ _ _ _ Ha) as (Own & _).
+  destruct (advance_at_frame _ _ _ _ _ _ Hv) as (A & L & _).
+  destruct (upd_ctx_frame s2 o c_set_racq) as (_ & L2 & _).
+  pose proof (callback_keeps fl o w (nth 1 (sc_cpw sc) []) (upd_ctx s2 o c_set_racq)) as (_ & K).
+  fold (cb_of sc 1) in K. rewrite Hw in K. simpl in K.
+  intros r Hr. rewrite owner_def, L, <- owner_def. apply K.
+  - now rewrite <- A.
+  - rewrite owner_def, L2, <- owner_def. now apply Own.
 Qed.
 
 Lemma work_once_holding_all_proof fl w s o p reqs sc :
@@ -1287,17 +1777,7 @@ Proof.
     | X : _ = EvWork _ |- _ => discriminate X
     end.
   (* the remaining cases: work_fn was invoked in state [sw] *)
-  all: match goal with
-       | Hb : exec_begin _ _ _ _ = (?s1, _),
-         Ha : acquire_all _ ?s1 _ _ _ = (?s2, AllAcquired), Hv : advance (upd_ctx ?s2 _ _) _ _ = (?sw, _)
-         |- In _ (active ?sw) /\ _ =>
-           destruct (acquire_all_owns _ _ _ _ _ _ Ha) as (Own & _);
-           destruct (advance_frame _ _ _ _ _ Hv) as (A & L & _);
-           destruct (upd_ctx_frame s2 o c_set_racq) as (A2 & L2 & _);
-           split;
-           [ rewrite A, A2, (acquire_all_active _ _ _ _ _ _ _ Ha); apply (exec_begin_active _ _ _ _ _ _ Hb)
-           | intros r Hr; rewrite owner_def, L, L2; apply (Own r Hr) ]
-       end.
+  all: eapply work_entry; eauto.
 Qed.
 
 Definition noval (e : ev) : Prop := is_validate e = false.
@@ -1366,7 +1846,7 @@ Proof.
     (split;
      [ try discriminate; intros _;
        repeat match goal with H : sc_validate _ = _ |- _ => rewrite H end; tauto
-     | intros (H1 & H2 & H3);
+     | intros (Hq1 & Hq2 & Hq3);
        repeat match goal with H : sc_validate _ = _ |- _ => rewrite H in * end;
        try reflexivity; try discriminate;
        repeat match goal with
@@ -1420,8 +1900,8 @@ Lemma step_wf w s a : WF s -> WF (fst (step current w s a)).
 Proof.
   intros W. destruct a as [f|o p reqs sc]; cbn [step].
   - pose proof (fstep_wf w s f W) as X. destruct (fstep current w s f). exact X.
-  - destruct (has_ctx s o) eqn:E; [exact W|].
-    apply has_ctx_false in E.
+  - destruct (is_active s o) eqn:E; [exact W|].
+    apply memz_false in E.
     destruct (no_leak_proof w s o p reqs sc W E) as (_ & _ & X).
     destruct (exec_op current w s o p reqs sc). exact X.
 Qed.
@@ -1471,14 +1951,41 @@ Proof.
   eapply N; eauto.
 Qed.
 
-(* execute_operation ends by complete/abort of a well-formed state [sX]; only
-   locks owned by the operation in [sX] change *)
+(* execute_operation ends by complete/abort of a state [sX] that is well-formed up to
+   the operation itself (which may have been delisted by a callback and still
+   hold locks); only locks owned by the operation in [sX] change *)
 Lemma exec_end_own_locks_proof w s o p reqs sc :
-  WF s -> get_ctx s o = None ->
-  exists sX, WF sX /\ fst (exec_op current w s o p reqs sc) = finish current sX o /\
+  WF s -> ~ In o (active s) ->
+  exists sX, WFbut o sX /\ fst (exec_op current w s o p reqs sc) = finish current sX o /\
     forall r, owner sX r <> Some o -> get_lock (fst (exec_op current w s o p reqs sc)) r = get_lock sX r.
 Proof.
-  intros W F. destruct (exec_op_ends_wf w s o p reqs sc W F) as (sX & WX & E).
+  intros W F. destruct (exec_op_ends_wfbut w s o p reqs sc W F) as (sX & WX & E).
   exists sX. split; auto. split; auto. rewrite E.
-  destruct (finish_spec sX o WX) as (_ & _ & _ & _ & L & _). exact L.
+  intros r N. eapply finish_lock_frame_but; eauto.
+Qed.
+
+(* ------------------------------------------------------------------ *)
+(* termination from inside a checkpoint callback                         *)
+
+(* If the operation is no longer listed as active when the G1 checkpoint has
+   been evaluated (it was killed / reaped / shut down while the G0 or G1
+   checkpoint callback ran), work_fn is not invoked and failure is reported. *)
+Lemma terminated_before_work_proof fl w s o p reqs sc :
+  let res := snd (exec_op fl w s o p reqs sc) in
+  (forall sw, In (EvWork sw) (r_log res) -> In o (active sw)) /\
+  (r_success res = true -> exists sw, In (EvWork sw) (r_log res)).
+Proof.
+  cbv zeta. split.
+  - intros sw X. now apply (work_once_holding_all_proof fl w s o p reqs sc).
+  - intros X. apply success_iff_both_proof in X as (X & _).
+    pose proof (validate_after_work_proof fl w s o p reqs sc) as V. revert X V.
+    exec_unfold. exec_paths; repeat rewrite in_app_iff; cbn [In]; intros X V;
+      try (eexists; repeat rewrite in_app_iff; cbn [In]; eauto 12; fail);
+      exfalso;
+      repeat match goal with
+      | X : _ \/ _ |- _ => destruct X as [X|X]
+      | X : False |- _ => destruct X
+      | X : In _ ?wl, F : Forall is_inner ?wl |- _ => destruct (inner_not_in _ _ F X)
+      | X : _ = EvWorkRet |- _ => discriminate X
+      end.
 Qed.
